@@ -20,6 +20,37 @@ from ..models import sortspec as S
 VARIANT = "opt"
 
 
+def cpu_children():
+    import resource
+    r = resource.getrusage(resource.RUSAGE_CHILDREN)
+    return r.ru_utime + r.ru_stime
+
+
+def evalbatch(path, cwd, timeout=3000, ok=lambda out: True):
+    """run the already built evalbatch (the parent built the variant; workers never rebuild).  If the run looks broken
+    (e.g. somebody else's check rebuilt build/opt underneath us) it is repeated in a fresh process."""
+    import subprocess
+    exe = os.path.join(build.BUILD, VARIANT, "harness", "evalbatch")
+    res = None
+    for attempt in range(4):
+        try:
+            p = subprocess.run([exe, path], cwd=cwd, env=build.env_for(VARIANT), stdout=subprocess.PIPE, stderr=subprocess.STDOUT,
+                               stdin=subprocess.DEVNULL, timeout=timeout)
+            res = common.Result(p.returncode, p.stdout.decode("utf-8", "replace"))
+        except subprocess.TimeoutExpired as ex:
+            res = common.Result(-9, (ex.stdout or b"").decode("utf-8", "replace"), timed_out=True)
+        except OSError as ex:
+            res = common.Result(-1, "cannot start evalbatch: %s" % ex)
+        if res.rc == 0 and ok(res.out):
+            return res
+        time.sleep(5 + 10 * attempt)
+        for _ in range(120):                      # wait for a rebuild in progress to finish
+            if os.path.exists(os.path.join(build.BUILD, VARIANT, "STAMP")) and os.path.exists(exe):
+                break
+            time.sleep(1)
+    return res
+
+
 # =====================================================================================================
 # (a) sorts
 # =====================================================================================================
@@ -41,6 +72,7 @@ def sort_job_text(job):
             txt.append("(set! print-max %d)\n(run-small-merges)\n" % SMALL_PRINT)
         else:
             txt.append("(set! print-max %d)\n(run-family '%s %d %d)\n" % (p[4] if len(p) > 4 else FAMILY_PRINT, p[1], p[2], p[3]))
+    txt.append('(write-string ";;SORTS-DONE")\n(newline)\n')
     return "".join(txt)
 
 
@@ -172,8 +204,8 @@ def run_sort_job(job):
     d = common.scratch_dir("c18s")
     path = os.path.join(d, "job.scm")
     common.write_file(path, sort_job_text(job))
-    t0 = time.time()
-    res = common.evalbatch(VARIANT, [path], timeout=3000, cwd=d)
+    t0 = cpu_children()
+    res = evalbatch(path, d, ok=lambda out: ";;SORTS-DONE" in out)
     shutil.rmtree(d, ignore_errors=True)
     lines = res.out.split("\n")
     cases = sort_cases(job)
@@ -184,6 +216,7 @@ def run_sort_job(job):
     done = 0
     printed = 0
     elements = 0
+    nontriv = 0
     crash = None
     for desc, n, keys, a, pm in cases:
         if li >= len(lines) or lines[li].startswith(";;"):
@@ -197,6 +230,8 @@ def run_sort_job(job):
         verdict, flag = head
         outcomes[verdict if flag == "#t" else verdict + "/flag=" + flag] += 1
         done += 1
+        if n >= 2:
+            nontriv += 1
         elements += n
         pv = None
         if n <= pm:
@@ -221,7 +256,7 @@ def run_sort_job(job):
     if crash is None and res.rc != 0:
         crash = (res.rc, None, res.out[-600:])
     return ("sort", vi, part, done, printed, elements, bad[:400], len(bad), dict(outcomes), disagree[:20], crash,
-            time.time() - t0)
+            cpu_children() - t0, nontriv)
 
 
 def sort_jobs(tier):
@@ -234,7 +269,7 @@ def sort_jobs(tier):
         else:
             jobs.append((vi, small))
             # split every family into ranges of about equal total size
-            k = 3
+            k = 2
             cuts = [0] + [int((N + 1) * math.sqrt(i / k)) for i in range(1, k)] + [N + 1]
             for f in S.FAMILIES:
                 for i in range(k):
@@ -292,7 +327,10 @@ def failing_parts(lib, got, want):
     if g[2] != w[2]:
         parts.append("return-value")
     if g[3] != w[3]:
-        parts.append("persistence")          # an earlier live version no longer shows the content it was created with
+        if not isinstance(g[3], list) or len(g[3]) != len(w[3]) or g[3][:-1] != w[3][:-1]:
+            parts.append("persistence")      # an earlier live version no longer shows the content it was created with
+        elif g[0] == w[0]:
+            parts.append("query-side-effect")    # the observations were right, but running them changed the object
     return tuple(parts)
 
 
@@ -309,7 +347,8 @@ def cont_driver_files(lib, d, hists, wants):
 
 
 def run_cont_job(job):
-    _, libname, level, maxlen, prefixes, count_root = job
+    _, libname, level, maxlen, prefixes, count_root = job[:6]
+    earlier = job[6] if len(job) > 6 else []      # (level, depth) of the runs planned before this one for the same library
     lib = get_lib(libname)
     alphabet = lib.alphabet(level)
     hists, wants, states = [], [], set()
@@ -328,9 +367,10 @@ def run_cont_job(job):
             states.add(hash(canon))
         lib.enumerate(list(pre), alphabet, maxlen, emit)
     t1 = time.time()
+    c1 = cpu_children()
     d = common.scratch_dir("c18c")
     path = cont_driver_files(lib, d, hists, wants)
-    res = common.evalbatch(VARIANT, [path], timeout=3000, cwd=d)
+    res = evalbatch(path, d, ok=lambda out: ";;DONE %d" % len(hists) in out)
     shutil.rmtree(d, ignore_errors=True)
     got_of = {}
     done = None
@@ -367,18 +407,29 @@ def run_cont_job(job):
             new = ("persistence",)        # the relations with the (now changed) earlier version are consequences
         opn = lib.ops[ord(h[-1]) - C.CODE0].name if h else "(init)"
         for p in new:
-            key = (opn if (p == "return-value" or p.startswith("exception")) else "*", p)
+            key = (opn.split(" ")[0] if p == "return-value" else "*", p)
             g = groups.get(key)
             ex = (len(h), h, got_of[i], wants[i])
             if g is None:
-                groups[key] = [1, ex]
+                groups[key] = [1, ex, {opn}]
             else:
                 g[0] += 1
+                g[2].add(opn)
                 if ex[:2] < g[1][:2]:
                     g[1] = ex
     counted = len(hists) - len(uncounted)
     lens = Counter(len(hists[i]) for i in range(len(hists)) if i not in uncounted)
-    return ("cont", libname, level, maxlen, counted, dict(lens), states, nmis, groups, crash, t1 - t0, time.time() - t1)
+    # distinct non-trivial histories: length >= 2 and not already executed by an earlier run with a larger alphabet
+    lvl_of = [o.lvl for o in lib.ops]
+    distinct = 0
+    for i, h in enumerate(hists):
+        if i in uncounted or len(h) < 2:
+            continue
+        hl = max(lvl_of[ord(c) - C.CODE0] for c in h)
+        if not any(el >= hl and ed >= len(h) for el, ed in earlier):
+            distinct += 1
+    return ("cont", libname, level, maxlen, counted, dict(lens), states, nmis, groups, crash, t1 - t0, cpu_children() - c1,
+            distinct)
 
 
 def cont_plan(tier, only):
@@ -390,34 +441,36 @@ def cont_plan(tier, only):
         if only and only not in ("cont", name):
             continue
         lib = get_lib(name)
-        if tier == "quick":
-            runs.append((name, 1, lib.depth_quick))            # core alphabet, all histories of length <= 4
-            runs.append((name, 2, lib.depth_quick - 2))        # every extended op is exercised (length <= 2)
-        else:
-            runs.append((name, 1, lib.depth_quick))            # = the quick run
-            runs.append((name, 2, lib.depth_thorough - 2))     # extended alphabet, length <= 3
-            runs.append((name, 0, lib.depth_thorough))         # reduced alphabet, length <= 5
-    for name, level, depth in runs:
+        for level, depth in lib.plan[tier]:
+            runs.append((name, level, depth))
+    for ri, (name, level, depth) in enumerate(runs):
         lib = get_lib(name)
         alphabet = lib.alphabet(level)
+        earlier = [(l, d) for (n2, l, d) in runs[:ri] if n2 == name]
         R = min(2, depth)
-        jobs.append(("cont", name, level, R, [()], True))
+        jobs.append(("cont", name, level, R, [()], True, earlier))
         if depth > R:
             pres = []
             lib.enumerate([], alphabet, R, lambda h, line, canon: pres.append(tuple(ord(c) - C.CODE0 for c in h)) if len(h) == R else None)
-            nchunks = max(1, min(len(pres), (2 if tier == "quick" else 6) * common.NCPU))
+            # size estimate from the growth between length R-1 and R, to keep about 15000 histories per process
+            cnt = Counter()
+            lib.enumerate([], alphabet, R, lambda h, line, canon: cnt.update([len(h)]))
+            growth = cnt[R] / max(1, cnt[R - 1])
+            est = cnt[R] * sum(growth ** i for i in range(1, depth - R + 1))
+            nchunks = int(max(1, min(len(pres), est / 15000, 8 * common.NCPU)))
             for i in range(nchunks):
-                jobs.append(("cont", name, level, depth, pres[i::nchunks], False))
+                jobs.append(("cont", name, level, depth, pres[i::nchunks], False, earlier))
     return jobs, runs
 
 
 class ContAggregator:
     def __init__(self, chk, tier):
         self.chk, self.tier = chk, tier
-        self.per = {}       # (lib, ext) -> dict
+        self.per = {}       # (lib, level) -> dict
+        self.planned = {}
 
     def add(self, r):
-        _, libname, level, maxlen, counted, lens, states, nmis, groups, crash, tgen, trun = r
+        _, libname, level, maxlen, counted, lens, states, nmis, groups, crash, tgen, trun, distinct = r
         chk = self.chk
         st = self.per.setdefault((libname, level), {"histories": 0, "states": set(), "lens": Counter(), "mismatches": 0,
                                                   "groups": {}, "gen_s": 0.0, "run_s": 0.0, "jobs": 0, "maxlen": 0})
@@ -429,16 +482,17 @@ class ContAggregator:
         st["run_s"] += trun
         st["jobs"] += 1
         st["maxlen"] = max(st["maxlen"], maxlen)
-        for k, (cnt, ex) in groups.items():
+        for k, (cnt, ex, opns) in groups.items():
             g = st["groups"].get(k)
             if g is None:
-                st["groups"][k] = [cnt, ex]
+                st["groups"][k] = [cnt, ex, set(opns)]
             else:
                 g[0] += cnt
+                g[2] |= opns
                 if ex[:2] < g[1][:2]:
                     g[1] = ex
         chk.evaluations += counted
-        chk.nontrivial_n += sum(c for l, c in lens.items() if l >= 2)
+        chk.nontrivial_n += distinct
         chk.outcomes["history:agree"] += counted - nmis
         if nmis:
             chk.outcomes["history:disagree"] += nmis
@@ -464,21 +518,37 @@ class ContAggregator:
             transitions += sum(c for l, c in st["lens"].items() if l >= 1)
             cov["%s/level%d" % (libname, level)] = {
                 "ops": len(lib.alphabet(level)), "depth": st["maxlen"], "histories": st["histories"],
+                "complete": st["jobs"] >= self.planned.get((libname, level), 0),
                 "by_length": {str(k): v for k, v in sorted(st["lens"].items())}, "distinct_states": len(st["states"]),
                 "disagreeing_histories": st["mismatches"], "model_cpu_s": round(st["gen_s"], 1), "impl_cpu_s": round(st["run_s"], 1)}
-            for (opn, part), (cnt, ex) in sorted(st["groups"].items(), key=lambda kv: (kv[1][1][0], kv[0])):
-                ln, h, got, want = ex
-                # re-run the single history alone in a fresh process before reporting it
-                alone = run_single(lib, h)
-                same = alone == got
-                what = ("%s: %s wrong%s after history [%s] (%d primary cases, alphabet %s): got %s  expected %s%s"
-                        % (libname, part, "" if opn == "*" else " for " + opn, describe(lib, h), cnt, "level %d" % level,
-                           diff_excerpt(lib, got, want, part), diff_excerpt(lib, want, want, part),
-                           "" if same else "  [alone in a fresh process the output was %s]" % alone[:200]))
-                chk.violation({"op": "%s %s" % (libname, part), "group": "container", "lib": libname, "part": part,
-                               "last_op": opn, "history": describe(lib, h), "codes": h, "cases": cnt,
-                               "got": got, "want": want, "reproduced_alone": same},
-                              what, cont_replay_text(lib, h, want))
+        merged = {}
+        for (libname, level), st in sorted(self.per.items()):
+            for k, (cnt, ex, opns) in st["groups"].items():
+                g = merged.setdefault((libname,) + k, [0, ex, set(), set()])
+                g[0] += cnt
+                g[2].add(level)
+                g[3] |= opns
+                if ex[:2] < g[1][:2]:
+                    g[1] = ex
+        order = sorted(merged.items(), key=lambda kv: (kv[0][0], kv[1][1][0], kv[0]))
+        # re-run every reported history alone in a fresh process before reporting it
+        alone_of = dict(zip([k for k, v in order],
+                            common.pmap(lambda kv: run_single(get_lib(kv[0][0]), kv[1][1][1]), order)))
+        for (libname, opn, part), (cnt, ex, levels, opns) in order:
+            lib = get_lib(libname)
+            ln, h, got, want = ex
+            alone = alone_of[(libname, opn, part)]
+            same = alone == got
+            lastops = sorted(opns)
+            what = ("%s: %s wrong%s after history [%s] (%d primary cases, alphabet levels %s; last operation one of: %s): got %s  expected %s%s"
+                    % (libname, part, "" if opn == "*" else " for " + opn, describe(lib, h), cnt, sorted(levels),
+                       ", ".join(lastops[:12]) + (" ..." if len(lastops) > 12 else ""),
+                       diff_excerpt(lib, got, want, part), diff_excerpt(lib, want, want, part),
+                       "" if same else "  [alone in a fresh process the output was %s]" % alone[:200]))
+            chk.violation({"op": "%s %s" % (libname, part), "group": "container", "lib": libname, "part": part,
+                           "last_op": opn, "last_ops": lastops, "history": describe(lib, h), "codes": h, "cases": cnt,
+                           "got": got, "want": want, "reproduced_alone": same},
+                          what, cont_replay_text(lib, h, want))
         chk.cov["containers"] = cov
         chk.cov["states"] = states
         chk.cov["transitions"] = transitions
@@ -498,8 +568,8 @@ def diff_excerpt(lib, line, want, part):
             return "%s=%s" % (part, C.swrite_tree(g[1][lib.rnames.index(part)]))
         if part == "return-value":
             return "ret=%s" % C.swrite_tree(g[2])
-        if part == "persistence":
-            return "earlier-versions=%s" % C.swrite_tree(g[3])
+        if part in ("persistence", "query-side-effect"):
+            return "versions-re-observed=%s" % C.swrite_tree(g[3])
     except Exception:
         pass
     return line[:200]
@@ -509,7 +579,7 @@ def run_single(lib, h):
     d = common.scratch_dir("c18r")
     path = os.path.join(d, "one.scm")
     common.write_file(path, lib.driver_text() + "(run-one %s)\n" % common.sdatum(h))
-    res = common.evalbatch(VARIANT, [path], timeout=300, cwd=d)
+    res = evalbatch(path, d, timeout=300, ok=lambda out: ";;STATS" in out and ";;EXC" not in out)
     shutil.rmtree(d, ignore_errors=True)
     for l in res.out.split("\n"):
         if l and not l.startswith(";;"):
@@ -549,7 +619,7 @@ def run_pure_job(job):
     d = common.scratch_dir("c18p")
     path = os.path.join(d, "job.scm")
     common.write_file(path, PL.job_text(kind, entries))
-    res = common.evalbatch(VARIANT, [path], timeout=1200, cwd=d)
+    res = evalbatch(path, d, timeout=1200, ok=lambda out: ";;EXC" not in out)
     shutil.rmtree(d, ignore_errors=True)
     body = []
     for l in res.out.split("\n"):
@@ -561,13 +631,15 @@ def run_pure_job(job):
     exp = PL.expected(kind, entries)
     n = min(len(body), len(exp))
     bad = {}
-    compared = skipped = 0
+    compared = skipped = nontriv = 0
     for i in range(n):
         name, args, want = exp[i]
         if want is None:
             skipped += 1
             continue
         compared += 1
+        if sum(len(x) for x in args) >= 2:
+            nontriv += 1
         if body[i] != want:
             g = bad.setdefault(name, [0, None])
             g[0] += 1
@@ -577,7 +649,7 @@ def run_pure_job(job):
     crash = None
     if len(body) != len(exp) or res.rc != 0:
         crash = (res.rc, len(body), len(exp), exp[n][0] if n < len(exp) else None, res.out[-400:])
-    return ("pure", kind, entries, compared, skipped, bad, crash)
+    return ("pure", kind, entries, compared, skipped, bad, crash, nontriv)
 
 
 class PureAggregator:
@@ -587,14 +659,14 @@ class PureAggregator:
         self.procs = set()
 
     def add(self, r):
-        _, kind, entries, compared, skipped, bad, crash = r
+        _, kind, entries, compared, skipped, bad, crash, nontriv = r
         chk = self.chk
         tab = PL.L1 if kind == "list" else PL.V1
         self.compared += compared
         self.skipped += skipped
         self.procs |= set((kind, tab[e][0]) for e in entries)
         chk.evaluations += compared
-        chk.nontrivial_n += compared
+        chk.nontrivial_n += nontriv
         chk.outcomes["pure:agree"] += compared - sum(g[0] for g in bad.values())
         if skipped:
             chk.exclude("pure: argument combination the SRFI leaves open", skipped)
@@ -659,7 +731,10 @@ def main(tier, replay=None):
         return 1
     first = [j for j in jobs if prio(j) == 0]
     rest = [j for j in jobs if prio(j) == 1]
-    kinds = [[j for j in rest if j[0] == "sort"], [j for j in rest if j[0] == "cont" and j[2] != 0],
+    def sort_key(j):          # shorter length ranges of every entry point first
+        part = j[1][1]
+        return part[0][2] if part[0][0] == "family" else -1
+    kinds = [sorted([j for j in rest if j[0] == "sort"], key=sort_key), [j for j in rest if j[0] == "cont" and j[2] != 0],
              [j for j in rest if j[0] == "cont" and j[2] == 0]]
     inter = []
     total = sum(len(k) for k in kinds)
@@ -672,10 +747,19 @@ def main(tier, replay=None):
     jobs = first + inter
     log("C18: %d jobs (%d sort)" % (len(jobs), sum(1 for j in jobs if j[0] == "sort")))
 
+    planned_sort = Counter()            # upper end of a family length range -> jobs planned
+    done_sort = Counter()
+    for j in jobs:
+        if j[0] == "sort":
+            for part in j[1][1]:
+                if part[0] == "family":
+                    planned_sort[part[3]] += 1
+    planned_cont = Counter((j[1], j[2]) for j in jobs if j[0] == "cont")
     sort_bad = defaultdict(list)        # (variant, verdict, flag) -> [(n, desc, line)]
     sort_bad_n = Counter()
     disagreements = []
     sort_cases_n = sort_printed = sort_elements = 0
+    sort_cpu = 0.0
     agg = ContAggregator(chk, tier)
     pure = PureAggregator(chk)
     done = 0
@@ -687,8 +771,14 @@ def main(tier, replay=None):
                 errors.append(r)
                 log("job failed:", r[1], r[2], r[3][-800:])
             elif r[0] == "sort":
-                _, vi, part, ndone, printed, elements, bad, nbad, outcomes, disagree, crash, secs = r
+                _, vi, part, ndone, printed, elements, bad, nbad, outcomes, disagree, crash, secs, nontriv = r
+                chk.nontrivial_n += nontriv
+                sort_cpu += secs
                 name = S.VARIANTS[vi]["name"]
+                if not crash:
+                    for pt in part:
+                        if pt[0] == "family":
+                            done_sort[pt[3]] += 1
                 chk.evaluations += ndone
                 sort_cases_n += ndone
                 sort_printed += printed
@@ -709,7 +799,10 @@ def main(tier, replay=None):
             else:
                 pure.add(r)
             if chk.out_of_time():
+                pids = [p.pid for p in getattr(pool, "_pool", [])]
                 pool.terminate()
+                for pid in pids:          # the evalbatch children of the killed workers run in scratch dirs named after the worker pid
+                    os.system("pkill -9 -f 'scratch/c18[scpr]-%d-' >/dev/null 2>&1" % pid)
                 log("deadline reached after %d/%d jobs" % (done, len(jobs)))
                 break
     # ---- sort verdicts: one violation per (verdict, kind of entry point) with the smallest failing input; the entry
@@ -742,8 +835,14 @@ def main(tier, replay=None):
                       "%s on %s with %s: %s; entry points: %s; smallest failing input %s (n=%d) through %r, %d failing cases  %s"
                       % ("merge" if shape == "merge" else check, cont, cmpk.strip(), what, ", ".join(c["variants"]), desc, n, vname,
                          c["cases"], line), sort_replay_text(vi, desc))
-    chk.nontrivial_n += sort_cases_n
+    bound = -1
+    for hi in sorted(planned_sort):
+        if done_sort[hi] < planned_sort[hi]:
+            break
+        bound = hi - 1
+    agg.planned = planned_cont
     chk.cov["sort"] = {"variants": len(S.VARIANTS), "cases": sort_cases_n, "elements_sorted": sort_elements,
+                       "every_length_completed_up_to": bound, "cpu_s": round(sort_cpu, 1),
                        "cases_rechecked_in_python": sort_printed, "families": S.FAMILIES,
                        "max_length": 300 if tier == "quick" else 2000}
     chk.sample("(sort (vector (0 . 0) (2 . 1) (1 . 2)) (lambda (a b) (< (car a) (car b))))")
@@ -754,7 +853,9 @@ def main(tier, replay=None):
     chk.cov["jobs_total"] = len(jobs)
     chk.rule = ("sorts: every key sequence of length<=8 over 3 keys + 7 families at every length, per entry point; "
                 "containers: every operation history up to the depth bound over the listed op alphabets, replayed on a "
-                "fresh object; distinct_nontrivial = sort cases + histories of length>=2")
+                "fresh object; pure: every list/vector (pair) of length<=4 over {0,1,2}.  distinct_nontrivial = sort cases "
+                "(entry point, input) with n>=2 + distinct histories of length>=2 (a history re-executed by a later run "
+                "with a nested alphabet is counted once) + pure calls whose arguments hold >=2 elements")
     chk.assumptions = ["opt build (gcc -O2)", "default comparator (srfi 128) orders small exact integers numerically",
                        "oracle: counting sort by key class / CPython sorted, set, dict, Counter, list",
                        "cases the SRFI calls an error (empty-queue removal, index out of range, ...) are not generated"]
@@ -765,3 +866,29 @@ def main(tier, replay=None):
         chk.finish()
         raise common.HarnessError("%d checker disagreements, %d failed jobs" % (len(disagreements), len(errors)))
     return chk.finish()
+
+
+def replay(path):
+    """./check C18 --replay <file>: re-run one recorded case alone; exit 1 if it still disagrees with its expectation"""
+    build.build_variant(VARIANT)
+    path = os.path.abspath(path)
+    res = common.evalbatch(VARIANT, [path], timeout=900)
+    sys.stdout.write(res.out)
+    text = open(path).read()
+    want = None
+    for l in text.split("\n"):
+        if l.startswith(";; expected: "):
+            want = l[len(";; expected: "):].strip()
+        elif l.startswith(";; expected verdict"):
+            want = "ok #t"
+    got = [l for l in res.out.split("\n") if l and not l.startswith(";;")]
+    if want is None or not got:
+        print("C18 replay: nothing to compare (rc=%s)" % res.rc)
+        return 2
+    if want == "ok #t":
+        bad = [l for l in got if l[:1] not in ("I", "R") and l != "ok #t"]
+        print("C18 replay: %s" % ("VIOLATION reproduced: " + bad[0] if bad else "ok"))
+        return 1 if bad else 0
+    same = got[0].strip() == want
+    print("C18 replay: %s" % ("ok" if same else "VIOLATION reproduced\n  got      %s\n  expected %s" % (got[0], want)))
+    return 0 if same else 1
